@@ -28,6 +28,7 @@ def make_plan(tape, prop):
     schema = gs.gen_schema(tape, feats=feats)
     n = len(schema["defs"])
     perms = []
+    modes = []
     nperm = 3 + tape.draw(6)
     for k in range(nperm):
         mode = tape.draw(6)
@@ -46,7 +47,10 @@ def make_plan(tape, prop):
             keys = [(tape.draw(1 << 16), i) for i in range(n)]
             p = [i for _, i in sorted(keys)]
         perms.append(p)
-    plan = {"sim": "order", "prop": prop, "schema": schema, "perms": perms, "compact_exprs": tape.chance(1, 2)}
+        modes.append(["reverse-dependency-order", "one-definition-moved-last", "reverse-with-swap"][mode] if mode < 3 and
+                     (mode != 2 or n > 1) else "random-permutation")
+    plan = {"sim": "order", "prop": prop, "schema": schema, "perms": perms, "modes": modes,
+            "compact_exprs": tape.chance(1, 2)}
     # a patch file that changes a member's type after parsing, and with it a dependency edge
     plan["patch"] = [tape.draw(1 << 10), tape.draw(1 << 10), tape.draw(1 << 10)] if tape.chance(1, 6) else None
     return plan
@@ -132,6 +136,7 @@ class OrderRun(object):
         self.armed = armed
         self.stats = {}
         self.probes = {}
+        self.faults = {}
         self.states = set()
         self.log = hashlib.sha1()
         self.trace = []
@@ -191,6 +196,10 @@ class OrderRun(object):
                                  (clock.budget, [names[i] for i in perm]))
             self.steps += clock.steps
             self.count("compiles")
+            mode = (plan.get("modes") or [])[pi] if pi < len(plan.get("modes") or []) else "minimised"
+            self.faults["order:" + mode] = self.faults.get("order:" + mode, 0) + 1
+            if patch_text:
+                self.faults["patch-changes-dependency"] = self.faults.get("patch-changes-dependency", 0) + 1
             order_desc = " ".join(names[i] for i in perm)
             self.trace.append("order %d: %s" % (pi, order_desc))
             self.log.update(order_desc.encode())
@@ -263,6 +272,7 @@ def execute(plan, armed):
     shape = gs.shape_digest(plan["schema"])
     n = len(plan["schema"]["defs"])
     return {"violation": v.as_dict() if v else None, "soft": [], "stats": run.stats, "probes": run.probes,
+            "faults": run.faults,
             "states": set("%s:%s" % (shape, s) for s in run.states) if n >= 3 else set(),
             "digest": run.log.hexdigest(), "trace": run.trace, "steps": run.steps, "nontrivial": n >= 3,
             "sample": {"definitions": [d["name"] for d in plan["schema"]["defs"]], "orders": run.trace[:4],
